@@ -7,8 +7,9 @@ COQ_FILES = ["Common/Corr.v", "Model/XLexer.v", "Model/XLexerTables.v", "Model/X
              "Proofs/XLexerUtf8.v", "Proofs/XLexerScan.v", "Proofs/XLexerStep.v", "Proofs/XLexerLoop.v",
              "Proofs/XLexer.v", "Proofs/XLexerParser.v", "Props/C28.v"]
 PROPS = "Props/C28.v"
-THEOREMS = ["C28_xlex_total", "C28_xlex_total_refuted", "C28_xlex_total_partial", "C28_xlex_never_out_of_fuel",
-            "C28_xlex_spans_in_file", "C28_verdict_spec", "C28_verdict_spec_refuted", "C28_verdict_spec_partial"]
+THEOREMS = ["C28_xlex_total", "C28_xlex_never_out_of_fuel", "C28_xlex_spans_in_file", "C28_verdict_spec"]
+# about the code as it was before the repairs; kept in Props/C28.v, audited with the rest
+HISTORICAL = ["C28_xlex_total_refuted", "C28_xlex_total_partial", "C28_verdict_spec_refuted", "C28_verdict_spec_partial"]
 AXIOMS_OK = []
 TRUSTED = ["hand-written Gallina mirror of the experimental lexer (Model/XLexer.v, shared with C29) and of the verdict loop of "
            "parser.Parse over the levels of experimental/report",
@@ -19,8 +20,8 @@ ASSUMPTIONS = ["the recursive-descent parser (parse_*.go, legalize_*.go) and its
                "not modelled: no theorem covers them",
                "InvalidNumber diagnostics (value parsing of number literals) are not modelled; their spans are checked by the oracle only",
                "the verdict theorems quantify over lists of the four levels the report package defines (ICE, Error, Warning, Remark)",
-               "an ICE-only report (where the as-written verdict would say ok=true) is a witness of the model only: no text that "
-               "produces an ICE without an accompanying Error is known"]
+               "an ICE-only report is never observed (no text producing an ICE is known after the repairs); the verdict on it is "
+               "covered by the theorem only"]
 
 
 def run(ctx):
@@ -138,3 +139,4 @@ def run(ctx):
                             "model_variant": {"fix_flush": ff, "fix_esc": fe}})
     ctx.extra["distinct_verdict_observations"] = len(verdict_seen)
     ctx.extra["model_variant"] = {"fix_flush": ff, "fix_esc": fe, "fix_verdict": fv}
+    ctx.extra["historical_lemmas"] = HISTORICAL
